@@ -187,7 +187,23 @@ type crashPoint struct {
 	closed   bool   // crash inside the open part of a reopen (store was closed cleanly before)
 }
 
+// crashOne runs one traced scenario. The reconstruction of the child's directory from the strace log is
+// self-checked against the real directory; when the self-check fails (seen only on a heavily loaded machine) nothing
+// has been judged yet, the log is kept for diagnosis and the scenario is traced again in a fresh child.
 func crashOne(self, dir string, tr *core.Tracer, sc *crashScen, raw json.RawMessage, outPrefix string, w, idx int) (int, int, int, error) {
+	var a, b, c int
+	var err error
+	for attempt := 0; attempt < 4; attempt++ {
+		a, b, c, err = crashOnce(self, dir, tr, sc, raw, outPrefix, w, idx)
+		if err == nil || !strings.Contains(err.Error(), "reconstruction") {
+			return a, b, c, err
+		}
+		fmt.Fprintf(os.Stderr, "vrun: scenario %d attempt %d: %v (tracing again)\n", idx, attempt, err)
+	}
+	return a, b, c, err
+}
+
+func crashOnce(self, dir string, tr *core.Tracer, sc *crashScen, raw json.RawMessage, outPrefix string, w, idx int) (int, int, int, error) {
 	base, err := os.MkdirTemp(dir, "cr")
 	if err != nil {
 		return 0, 0, 0, err
@@ -264,6 +280,11 @@ func crashOne(self, dir string, tr *core.Tracer, sc *crashScen, raw json.RawMess
 		}
 	}
 	if mismatch != "" {
+		keep := filepath.Join(os.TempDir(), fmt.Sprintf("verif-strace-mismatch.%d.%d", os.Getpid(), idx))
+		os.MkdirAll(keep, 0o755)
+		copyFileTo(logf, filepath.Join(keep, "strace.log"))
+		copyFileTo(scenFile, filepath.Join(keep, "scen.json"))
+		copyFileTo(marks, filepath.Join(keep, "marks"))
 		return 0, 0, 0, fmt.Errorf("image reconstruction differs from the real directory (%s); strace log %s", mismatch, logf)
 	}
 
@@ -498,6 +519,12 @@ func recoverImage(base, root string, im *straceimg.Image, r *seqRun, sc *crashSc
 		ev["open"] = "continuation: " + err.Error()
 	}
 	return ev
+}
+
+func copyFileTo(from, to string) {
+	if b, err := os.ReadFile(from); err == nil {
+		os.WriteFile(to, b, 0o644)
+	}
 }
 
 var _ = context.Background
